@@ -48,7 +48,18 @@ def run_check(pid: str, root: Path, evid: Path):
     return p.returncode, p.stdout + p.stderr
 
 
+def apply_patch(root: Path, v: dict):
+    patch = VERIF / v["patch"]
+    p = subprocess.run(["patch", "-p1", "-s", "-f", "--no-backup-if-mismatch", "-i", str(patch)], cwd=root, capture_output=True, text=True)
+    if p.returncode != 0:
+        raise RuntimeError(f"{v['id']}: patch does not apply: {p.stdout[-300:]} {p.stderr[-200:]}")
+    for f in (root / "fickling").rglob("*.py"):
+        compile(f.read_text(), str(f), "exec")
+
+
 def apply_edits(root: Path, v: dict):
+    if v.get("patch"):
+        return apply_patch(root, v)
     edits = v.get("edits") or [{"file": v["file"], "old": v["old"], "new": v["new"], "count": v.get("count", 1)}]
     for e in edits:
         p = root / e["file"]
